@@ -891,8 +891,8 @@ def correspond(ctx, which=("M", "MH")):
         "ConvolveDataAdjoint / ConvolveFilter / ConvolveFilterAdjoint in the 1-D single-channel case "
         "(conv_leaf_proved); FiniteDifference: the tree generated from the factory has proved leaves only",
         "the `_apply` bodies of Identity, Reshape, Transpose, Resize, Flip, Circshift, Downsample, Upsample, Sum, Slice, "
-        "Embed, ArrayToBlocks, BlocksToArray, Interpolate, Gridding are translated (applyGen) and proved to be what the "
-        "model denotes (leafSem0_eq_prim); Tile, Multiply, MatMul, RightMatMul `_apply` remain hand transcriptions tied by "
+        "Embed, ArrayToBlocks, BlocksToArray, Interpolate, Gridding, MatMul, RightMatMul are translated (applyGen) and "
+        "proved to be what the model denotes (leafSem0_eq_prim); Tile and Multiply `_apply` remain hand transcriptions tied by "
         "the exact matrix correspondence; the numpy / util primitive semantics are the model's contracts",
         "which class with which arguments every _adjoint_linop returns is translated from linop.py on every run "
         "(Gen.LinopAdjoint) and proved equal to the model's adj (adjLeaf_eq_gen, adj_eq_gen); the per-class map "
